@@ -44,7 +44,7 @@ MANIFEST = {
     "ref": "DESIGN.md §3 C30",
 }
 BUDGET = {
-    "quick": {"runs": 480, "chunk": 20, "wall": 150, "chunk_timeout": 240},
+    "quick": {"runs": 1600, "chunk": 40, "wall": 150, "chunk_timeout": 240},
     "thorough": {"runs": 12000, "chunk": 40, "wall": 1500, "chunk_timeout": 900},
 }
 
@@ -150,6 +150,12 @@ def snapshot() -> dict:
         "logging_disable": logging.root.manager.disable,
         "root_level": logging.root.level,
         "root_handlers": len(logging.root.handlers),
+        # what the switches mean to the loggers the module under test and the executor use (per-logger caches of
+        # isEnabledFor must not outlive the state they were computed under)
+        "loggers_enabled_for": tuple(
+            logging.getLogger(name).isEnabledFor(level)
+            for name in ("chaos", "chaos.noise", "pynguin.testcase.execution")
+            for level in (logging.WARNING, logging.ERROR, logging.CRITICAL)),
         "pynguin_rng": simkit.stable_hash(repr(randomness.RNG.getstate())),
     }
 
@@ -250,7 +256,7 @@ def _attributable(diff_keys, abandoned_funcs) -> str | None:
     for k in diff_keys:
         if k.startswith(("fd", "stdout", "stderr")):
             classes.add("stream")
-        elif k.startswith(("logging", "root_")):
+        elif k.startswith(("logging", "root_", "loggers_")):
             classes.add("logging")
         elif k == "random":
             classes.add("random")
@@ -275,6 +281,12 @@ def run_case(case: dict) -> dict:
     env = _env
     kn = case["knobs"]
     pool = case["pool"]
+    # Pynguin re-seeds every random.Random instance it has ever seen (a WeakSet) before each execution, in traced
+    # executor code: instances left over from earlier cases would make this case's simulated time depend on when
+    # the garbage collector last ran
+    import gc
+
+    gc.collect()
     reset_process_state()
     refs = {}
     for idx in sorted(set(case["ops"])):
